@@ -4,7 +4,8 @@ import json, os
 VERIF = os.path.dirname(os.path.dirname(os.path.abspath(__file__)))
 BASE = json.load(open("/root/.vp/BASELINE.json"))["cmd"] if os.path.exists("/root/.vp/BASELINE.json") else ""
 
-TB = ("Trusted: Verus/Z3 (and rustc front end); prelude std specs (assume_specification), domain stand-in types, "
+TB = ("Thorough tier additionally runs the BOUNDED validation of the tower DBM stub contracts against the real SQL (159 014 operation sequences; labelled bounded, not a proof). "
+      "Trusted: Verus/Z3 (and rustc front end); prelude std specs (assume_specification), domain stand-in types, "
       "external_body stubs for collaborators/DBM/crypto listed per run in the evidence; mechanical extraction rules "
       "E1-E18 (DESIGN.md 2.1) incl. the sequential projection of Mutex/Arc/Atomic (no interleavings).")
 
@@ -85,7 +86,8 @@ CLAIMED.update({
    technique=VT, ref="DESIGN.md §4 C11, §6"),
 })
 
-PT = ("Trusted: Verus/Z3 (and rustc front end); prelude std specs; the client DBM stub transcribing watchtower-plugin/src/dbm.rs SQL as ghost relations; "
+PT = ("Thorough tier (C05, C18) additionally runs the BOUNDED validation of the client DBM stub contracts against the real SQL (87 880 operation sequences; labelled bounded, not a proof). "
+      "Trusted: Verus/Z3 (and rustc front end); prelude std specs; the client DBM stub transcribing watchtower-plugin/src/dbm.rs SQL as ghost relations; "
       "reqwest/serde_json as a nondeterministic oracle over the declared result types; ECDSA recovery uninterpreted; extraction rules E1-E18 incl. "
       "the sequential projection of Arc<Mutex<WTClient>> (no interleavings) and async removal.")
 CLAIMED.update({
